@@ -357,8 +357,9 @@ Qed.
 Lemma fr_tick_leader e s : π (nd (tick_leader e s)) = π (nd s).
 Proof.
   unfold tick_leader. destruct (role (nd s) =? LEADER); [|reflexivity].
-  pose proof (nd_commit_loop (Datatypes.S (length (log (nd s)))) (commit (nd s)) (commit (nd s)) s) as G.
-  destruct (commit_loop _ _ _ _) as [s1 nc]. cbn [fst] in G.
+  match goal with |- context [commit_loop ?f ?a ?b s] =>
+    pose proof (nd_commit_loop f a b s) as G; destruct (commit_loop f a b s) as [s1 nc] end.
+  cbn [fst] in G.
   destruct (ok s1); [|now rewrite G].
   unfold set_commit_meta.
   destruct (commit (nd s1) =? nc); fr; try rewrite fr_set_role; fr; now rewrite G.
@@ -380,20 +381,22 @@ Proof.
   destruct prev as [[pidx pterm]|]; [|now rewrite nd_send_next_idx].
   destruct (negb _); [now rewrite nd_send_next_idx|].
   rewrite fr_ae_commit, nd_send_next_idx.
-  destruct (dyn (cf e)); rewrite ?fr_apply_membership; frw;
-    destruct (skipn _ ptail); try reflexivity; destruct (skipn _ new); try reflexivity; frw;
-    rewrite ?fr_apply_membership; reflexivity.
+  match goal with |- context [upd (fun n => n <| log := log n ++ _ |>) ?s1] =>
+    assert (E : π (nd s1) = π (nd s)) end.
+  { destruct (skipn _ ptail); [reflexivity|]. destruct (skipn _ new); [reflexivity|].
+    frw. destruct (dyn (cf e)); [apply fr_apply_membership|reflexivity]. }
+  destruct (dyn (cf e)); rewrite ?fr_apply_membership; frw; exact E.
 Qed.
 
 Lemma fr_on_append_entries e from m t c s : π (nd (on_append_entries e from m t c s)) = π (nd s).
 Proof.
   unfold on_append_entries. destruct (t <? term (nd s)); [reflexivity|].
-  match goal with |- π (nd (match m with AE _ _ _ _ => _ | _ => _ end)) = _ => idtac end.
-  match goal with |- context [ae_regular e from c _ _ ?s1] =>
-    assert (E : π (nd s1) = π (nd s)) end.
-  { frw. rewrite fr_set_role.
+  match goal with |- context [upd (fun n => n <| leader_commit := Some c |>) ?s0] =>
+    set (s1 := upd (fun n => n <| leader_commit := Some c |>) s0) end.
+  assert (E : π (nd s1) = π (nd s)).
+  { subst s1. frw. rewrite fr_set_role.
     destruct (term _ <? t); frw; destruct (opt_eqb _ _); rewrite ?fr_on_leader_changed; fr. }
-  destruct m; try exact E.
+  clearbody s1. destruct m; try exact E.
   - rewrite fr_ae_regular. exact E.
   - destruct (lab =? 1); [frw; exact E|].
     destruct (recv_t _); [exact E|].
@@ -409,10 +412,11 @@ Lemma fr_on_message e from m n : π (nd (on_message e from m n)) = π n.
 Proof.
   unfold on_message. destruct m.
   - cbn [nd start_S]. destruct (self n); [|reflexivity].
-    match goal with |- context [role (nd ?s1)] => assert (E : π (nd s1) = π n) end.
-    { destruct (_ <? _); frw; rewrite ?fr_set_role; fr. }
-    fr; exact E.
-  - fr; apply fr_become_leader.
+    match goal with |- context [role (nd ?s0)] => set (s1 := s0) end.
+    assert (E : π (nd s1) = π n).
+    { subst s1. destruct (_ <? _); frw; rewrite ?fr_set_role; fr. }
+    clearbody s1. fr; exact E.
+  - fr; rewrite fr_become_leader; fr.
   - apply fr_on_append_entries.
   - apply fr_on_append_entries.
   - apply fr_on_append_entries.
@@ -454,3 +458,148 @@ Proof.
 Qed.
 
 End Frame.
+
+(* ------------------------------------------------------------------------------------------ *)
+(* composing a per-phase relation over a whole handler / a global step / a trace              *)
+
+Lemma on_tick_rel (R : node -> node -> Prop) e :
+  (forall a, R a a) -> (forall a b c, R a b -> R b c -> R a c) ->
+  (forall s, R (nd s) (nd (tick_load e s))) ->
+  (forall s, R (nd s) (nd (tick_timer e s))) ->
+  (forall s, R (nd s) (nd (tick_election e s))) ->
+  (forall s, R (nd s) (nd (tick_leader e s))) ->
+  (forall s, R (nd s) (nd (fst (apply_entries e s)))) ->
+  (forall need s, R (nd s) (nd (tick_send e need s))) ->
+  (forall s, R (nd s) (nd (tick_ready s))) ->
+  (forall s, R (nd s) (nd (check_commands e s))) ->
+  (forall s, R (nd s) (nd (try_compact e s))) ->
+  forall n, R n (nd (on_tick e n)).
+Proof.
+  intros Rf Tr H1 H2 H3 H4 H5 H6 H7 H8 H9 n. unfold on_tick.
+  change n with (nd (start_S e n)) at 1.
+  apply andthen_rel; [exact Tr|apply H1|intros].
+  apply andthen_rel; [exact Tr|apply H2|intros].
+  apply andthen_rel; [exact Tr|apply H3|intros].
+  apply andthen_rel; [exact Tr|apply H4|intros].
+  pose proof (H5 s'2) as G. destruct (apply_entries e s'2) as [s1 need]. cbn [fst] in G.
+  destruct (ok s1); [|exact G]. eapply Tr; [exact G|].
+  apply andthen_rel; [exact Tr|apply H6|intros].
+  apply andthen_rel; [exact Tr|apply H7|intros].
+  apply andthen_rel; [exact Tr|apply H8|intros].
+  apply H9.
+Qed.
+
+(* one handler invocation on a node of a cluster configured with [c]; [MP] restricts the
+   messages the environment may deliver *)
+Inductive nstep (c : conf) (MP : msg -> Prop) (n : node) : node -> Prop :=
+| ns_tick e : cf e = c -> nstep c MP n (nd (on_tick e n))
+| ns_msg e from m : cf e = c -> MP m -> nstep c MP n (nd (on_message e from m n))
+| ns_conn b : nstep c MP n (on_connected b n)
+| ns_disc b : nstep c MP n (on_disconnected b n)
+| ns_submit e cm cbk : cf e = c -> nstep c MP n (nd (api_submit e cm cbk n))
+| ns_admin e cm cbk : cf e = c -> nstep c MP n (nd (api_admin e cm cbk n))
+| ns_setver e cm cbk : cf e = c -> nstep c MP n (nd (api_setver e cm cbk n))
+| ns_compact : nstep c MP n (api_compact n).
+
+Lemma aget_aset {V} k (v : V) x l : aget x (aset k v l) = if x =? k then Some v else aget x l.
+Proof.
+  induction l as [|[k' v'] r IH]; cbn.
+  - destruct (x =? k); reflexivity.
+  - destruct (k <? k') eqn:E1; cbn.
+    + destruct (x =? k); reflexivity.
+    + destruct (k =? k') eqn:E2; cbn.
+      * apply N.eqb_eq in E2. subst k'. destruct (x =? k); reflexivity.
+      * rewrite IH. destruct (x =? k') eqn:E3; [|reflexivity].
+        apply N.eqb_eq in E3. subst k'. destruct (x =? k) eqn:E4; [|reflexivity].
+        apply N.eqb_eq in E4. subst. rewrite N.eqb_refl in E2. discriminate.
+Qed.
+
+Lemma aget_adel_ne {V} k x (l : list (N * V)) : x <> k -> aget x (adel k l) = aget x l.
+Proof.
+  intros Hne. induction l as [|[k' v'] r IH]; cbn; [reflexivity|].
+  destruct (k =? k') eqn:E1; cbn.
+  - apply N.eqb_eq in E1. subst k'. destruct (x =? k) eqn:E; [apply N.eqb_eq in E; contradiction|reflexivity].
+  - rewrite IH. reflexivity.
+Qed.
+
+Lemma nodes_chan_set a b q g : nodes (chan_set a b q g) = nodes g.
+Proof. reflexivity. Qed.
+
+Lemma nodes_route a os g : nodes (route a os g) = nodes g.
+Proof.
+  unfold route. revert g. induction os as [|o os IH]; intros g; cbn; [reflexivity|].
+  rewrite IH. destruct o; reflexivity.
+Qed.
+
+Lemma nodes_finish x s g : nodes (finish x s g) = aset x (nd s) (nodes g).
+Proof. unfold finish. rewrite nodes_route. reflexivity. Qed.
+
+Definition chan_all (MP : msg -> Prop) (g : gstate) : Prop :=
+  forall a b m, In m (chan_get a b g) -> MP m.
+
+Definition is_restart (x : nid) (ev : event) : bool :=
+  match ev with ERestart n _ _ _ _ => n =? x | _ => false end.
+Definition is_kill (x : nid) (ev : event) : bool :=
+  match ev with EKill n => n =? x | _ => false end.
+
+(* how one node moves in a global step that neither kills nor restarts it *)
+Lemma gstep_nstep c MP g ev g' r x n :
+  gstep c g ev = Some (g', r) -> chan_all MP g ->
+  is_restart x ev = false -> is_kill x ev = false ->
+  aget x (nodes g) = Some n ->
+  exists n', aget x (nodes g') = Some n' /\ (n' = n \/ nstep c MP n n').
+Proof.
+  intros Hs Hc Hr Hk Hn. destruct ev; unfold gstep in Hs; cbn in Hr, Hk; cbv zeta in Hs.
+  - destruct (aget n0 (nodes g)) as [y|] eqn:E; [|discriminate]. inversion Hs; subst; clear Hs.
+    rewrite nodes_finish, aget_aset. destruct (x =? n0) eqn:Ex.
+    + apply N.eqb_eq in Ex. subst. rewrite E in Hn. inversion Hn; subst.
+      eexists; split; [reflexivity|right]. now apply ns_tick.
+    + eauto.
+  - destruct (aget b (nodes g)) as [y|] eqn:E; [|discriminate].
+    destruct (chan_get a b g) as [|m rest] eqn:Ec; [discriminate|]. inversion Hs; subst; clear Hs.
+    rewrite nodes_finish, nodes_chan_set, aget_aset. destruct (x =? b) eqn:Ex.
+    + apply N.eqb_eq in Ex. subst. rewrite E in Hn. inversion Hn; subst.
+      eexists; split; [reflexivity|right]. apply ns_msg; [reflexivity|].
+      apply (Hc a b). rewrite Ec. now left.
+    + eauto.
+  - destruct (aget a (nodes g)) as [y|] eqn:E; [|discriminate]. inversion Hs; subst; clear Hs.
+    rewrite nodes_chan_set, nodes_finish, aget_aset. destruct (x =? a) eqn:Ex.
+    + apply N.eqb_eq in Ex. subst. rewrite E in Hn. inversion Hn; subst.
+      eexists; split; [reflexivity|right]. apply ns_disc.
+    + eauto.
+  - inversion Hs; subst; clear Hs. rewrite nodes_chan_set. eauto.
+  - destruct (aget a (nodes g)) as [y|] eqn:E; [|discriminate]. inversion Hs; subst; clear Hs.
+    rewrite nodes_finish.
+    assert (Hg : forall fr, nodes (if fr then chan_set a b [] (chan_set b a [] g) else g) = nodes g)
+      by (intros []; reflexivity).
+    rewrite Hg, aget_aset. destruct (x =? a) eqn:Ex.
+    + apply N.eqb_eq in Ex. subst. rewrite E in Hn. inversion Hn; subst.
+      eexists; split; [reflexivity|right]. apply ns_conn.
+    + eauto.
+  - destruct (aget n0 (nodes g)) as [y|] eqn:E; [|discriminate]. inversion Hs; subst; clear Hs.
+    rewrite nodes_finish, aget_aset. destruct (x =? n0) eqn:Ex.
+    + apply N.eqb_eq in Ex. subst. rewrite E in Hn. inversion Hn; subst.
+      eexists; split; [reflexivity|right]. now apply ns_submit.
+    + eauto.
+  - destruct (aget n0 (nodes g)) as [y|] eqn:E; [|discriminate]. inversion Hs; subst; clear Hs.
+    rewrite nodes_finish, aget_aset. destruct (x =? n0) eqn:Ex.
+    + apply N.eqb_eq in Ex. subst. rewrite E in Hn. inversion Hn; subst.
+      eexists; split; [reflexivity|right]. now apply ns_admin.
+    + eauto.
+  - destruct (aget n0 (nodes g)) as [y|] eqn:E; [|discriminate]. inversion Hs; subst; clear Hs.
+    rewrite nodes_finish, aget_aset. destruct (x =? n0) eqn:Ex.
+    + apply N.eqb_eq in Ex. subst. rewrite E in Hn. inversion Hn; subst.
+      eexists; split; [reflexivity|right]. now apply ns_setver.
+    + eauto.
+  - destruct (aget n0 (nodes g)) as [y|] eqn:E; [|discriminate]. inversion Hs; subst; clear Hs.
+    rewrite nodes_finish, aget_aset. destruct (x =? n0) eqn:Ex.
+    + apply N.eqb_eq in Ex. subst. rewrite E in Hn. inversion Hn; subst.
+      eexists; split; [reflexivity|right]. apply ns_compact.
+    + eauto.
+  - inversion Hs; subst; clear Hs. cbn.
+    assert (Hne : x <> n0) by (intros ->; rewrite N.eqb_refl in Hk; discriminate).
+    rewrite aget_adel_ne by exact Hne.
+    destruct (aget n0 (nodes g)) as [y|]; [destruct (disk_of c y)|]; cbn; eauto.
+  - inversion Hs; subst; clear Hs. unfold put_node. cbn.
+    rewrite aget_aset, Hr. eauto.
+Qed.
